@@ -2,6 +2,7 @@ package rules
 
 import (
 	"fmt"
+	"go/token"
 	"go/types"
 	"os"
 	"sort"
@@ -127,6 +128,171 @@ func runC17(c *Ctx) {
 		sort.Strings(bad)
 		c.verdict(n >= 2 && len(bad) == 0, "neutrino | a closed block subscription ends the rescan", "", fmt.Sprintf("%d receive(s) from Subscription.Notifications, each with an ok test whose closed edge only returns", n), join(uniq(bad)), c.ats(sites)...)
 	})
+	c.rule("C17.S2", "Stop returns from every state, also when Start never ran or failed half-way (a failed headers import makes ChainService.Start return before any subsystem was started, and the caller then stops the service): in every type of the module with a Start and a Stop method, Stop does not wait for a channel that is closed only by a goroutine Start spawns, unless the wait lies behind a test of the flag Start sets (the goroutine does not exist, the channel is never closed, Stop waits for ever)", func() {
+		type pair struct{ start, stop *ssa.Function }
+		pairs := map[*types.Named]*pair{}
+		for _, fn := range c.P.Funcs {
+			if fn.Parent() != nil || fn.Signature.Recv() == nil {
+				continue
+			}
+			if fn.Name() != "Start" && fn.Name() != "Stop" {
+				continue
+			}
+			rt := fn.Signature.Recv().Type()
+			if p, ok := rt.(*types.Pointer); ok {
+				rt = p.Elem()
+			}
+			n, ok := rt.(*types.Named)
+			if !ok {
+				continue
+			}
+			if pairs[n] == nil {
+				pairs[n] = &pair{}
+			}
+			if fn.Name() == "Start" {
+				pairs[n].start = fn
+			} else {
+				pairs[n].stop = fn
+			}
+		}
+		cg := c.graph()
+		nTypes, nWaits := 0, 0
+		var bad []string
+		var names []string
+		for n, pr := range pairs {
+			if pr.start == nil || pr.stop == nil {
+				continue
+			}
+			nTypes++
+			names = append(names, c.on(n.Obj()))
+			// goroutines Start spawns (directly or in what it calls), and everything they run
+			spawned := map[*ssa.Function]bool{}
+			for f := range c.reachable(pr.start) {
+				for _, gs := range cg.goSites {
+					if gs.in.Parent() == f {
+						for _, t := range gs.targets {
+							for r := range c.reachable(t) {
+								spawned[r] = true
+							}
+						}
+					}
+				}
+			}
+			if len(spawned) == 0 {
+				continue
+			}
+			// channel fields of the type closed only inside those goroutines
+			st, _ := n.Underlying().(*types.Struct)
+			if st == nil {
+				continue
+			}
+			for i := 0; i < st.NumFields(); i++ {
+				f := st.Field(i)
+				if _, isChan := f.Type().Underlying().(*types.Chan); !isChan {
+					continue
+				}
+				closedIn, closedOut := 0, 0
+				for _, fn := range c.P.Funcs {
+					for range find(fn, closes(loadsField(f))) {
+						if spawned[fn] {
+							closedIn++
+						} else {
+							closedOut++
+						}
+					}
+				}
+				if closedIn == 0 || closedOut > 0 {
+					continue
+				}
+				// waits of Stop (and of what it calls) on that channel
+				for sf := range c.reachable(pr.stop) {
+					if spawned[sf] {
+						continue
+					}
+					var waits []ssa.Instruction
+					ir.Instrs(sf, func(in ssa.Instruction) {
+						switch x := in.(type) {
+						case *ssa.UnOp:
+							if x.Op == token.ARROW && loadsField(f)(x.X) {
+								waits = append(waits, in)
+							}
+						case *ssa.Select:
+							if x.Blocking && selectHasRecv(x, loadsField(f)) {
+								waits = append(waits, in)
+							}
+						}
+					})
+					if len(waits) == 0 {
+						continue
+					}
+					nWaits += len(waits)
+					// the flag(s) Start sets with an atomic operation on a field of the type
+					flag := map[*types.Var]bool{}
+					ir.Instrs(pr.start, func(in ssa.Instruction) {
+						cc := ir.CallOf(in)
+						if cc == nil || !(atomicOp("CompareAndSwap")(in) || atomicOp("Add")(in) || atomicOp("Store")(in) || atomicOp("Swap")(in)) || len(cc.Args) == 0 {
+							return
+						}
+						if fa, ok := cc.Args[0].(*ssa.FieldAddr); ok {
+							flag[ir.FieldOfAddr(fa)] = true
+						}
+					})
+					var g guard
+					g.name = "Start has run (test of the flag Start sets)"
+					ir.Instrs(sf, func(in ssa.Instruction) {
+						cc := ir.CallOf(in)
+						if cc == nil || !(atomicOp("Load")(in) || atomicOp("CompareAndSwap")(in)) || len(cc.Args) == 0 {
+							return
+						}
+						fa, ok := cc.Args[0].(*ssa.FieldAddr)
+						if !ok || !flag[ir.FieldOfAddr(fa)] {
+							return
+						}
+						v, isV := in.(ssa.Value)
+						if !isV {
+							return
+						}
+						for _, r := range ir.Refs(v) {
+							switch y := r.(type) {
+							case *ssa.BinOp:
+								for _, br := range ir.EqBranches(y) {
+									g.sites = append(g.sites, guardSite{br, in}, guardSite{br.Flip(), in})
+								}
+							case *ssa.If:
+								for _, br := range ir.TrueBranches(v) {
+									g.sites = append(g.sites, guardSite{br, in}, guardSite{br.Flip(), in})
+								}
+								_ = y
+							}
+						}
+					})
+					// guarded: no wait reachable from the entry once both sides of ... one
+					// side of a flag test is cut: the wait must lie behind SOME outcome of it
+					okAll := len(g.sites) > 0
+					if okAll {
+						for _, w := range waits {
+							dom := false
+							for _, gsite := range g.sites {
+								if ir.EdgeDominates(sf, gsite.br.Edge(), w.Block()) {
+									dom = true
+								}
+							}
+							if !dom {
+								okAll = false
+							}
+						}
+					}
+					if !okAll {
+						bad = append(bad, fmt.Sprintf("%s waits for %s.%s at %s, which only a goroutine spawned by Start closes, without testing that Start ran", c.nm(sf), c.on(n.Obj()), c.on(f), join(c.ats(waits))))
+					}
+				}
+			}
+		}
+		sort.Strings(bad)
+		sort.Strings(names)
+		c.verdict(nTypes >= 5 && len(bad) == 0, "module | Stop methods do not wait for goroutines that Start never spawned", "", fmt.Sprintf("%d types with Start and Stop (%s); %d wait(s) on goroutine-closed channels, each behind a test of the started flag", nTypes, join(names), nWaits), join(bad))
+	})
+	c.rule("C17.P3", "Stop completes: "+lockOrderDoc, func() { c.lockOrder() })
 	c.rule("C17.P2", "Stop completes: "+eventsUnlockedDoc, func() { c.eventsUnlocked() })
 	c.rule("C17.B1", "blocking discipline over both modules: every blocking select has an arm that becomes ready at shutdown or after a bounded time (a close-only signal channel, context.Done or a timer); every unconditional send / receive is a tabled site with a reason and a supporting obligation; buffered classes are allocated with constant capacity >= 1", func() {
 		// reply sends of handleQuery: one row per type-switch case that carries a
@@ -351,9 +517,10 @@ func runC17(c *Ctx) {
 	c.rule("C17.O1", "shutdown order: ChainService.Stop runs once; every subsystem is stopped before s.quit is closed and s.wg is waited; the work manager (last producer of filters) is stopped before the filter batch writer; every subsystem Stop closes its quit channel before it waits for its goroutines", func() {
 		stop := c.fn(fnCSStop)
 		add := atomicOp("Add")
+		load := atomicOp("Load") // reading a flag is not a shutdown step
 		var effects []ssa.Instruction
 		ir.Instrs(stop, func(in ssa.Instruction) {
-			if _, ok := in.(*ssa.Call); ok && !add(in) {
+			if _, ok := in.(*ssa.Call); ok && !add(in) && !load(in) {
 				effects = append(effects, in)
 			}
 		})
